@@ -140,10 +140,61 @@ struct C16Redeliver : Monitor {
 		}
 	}
 
+	// A query that was waiting at the server when a (late) raw login datagram arrived: iodined used to overwrite it without answering
+	// it, so that it was in none of its duplicate memories.  The copy of such a query is re-delivered at the moment it can do harm:
+	// when the server has just sent the fragment the query's stale ack names (3-bit sequence numbers come round every 8 packets).
+	struct Forgotten { uint64_t serial; int uid, dn_seq, dn_frag; int shots; int fed = 0; bool big = false; uint64_t t_last = 0; };
+	int fed_ser = 0;
+	void feed(int len)
+	{
+		// aimed workload: small downstream packets until the sequence number is about to come round, then a multi-fragment one
+		J op = J::obj(); op.set("op", "tun"); op.set("at", "srv"); op.set("ser", (long long)(w->S.seed % 1000 * 100000 + 90000 + ++fed_ser)); op.set("len", len); op.set("body", "rnd"); op.set("dst", "c0"); op.set("src", "ext");
+		World *ww = w; w->S.at(w->S.now + 2000, [ww, op]() { ww->do_op(op); });
+		w->S.count("op.tun.aimed_seqno_round");
+	}
+	std::vector<Forgotten> forgotten;
+	std::map<int, std::pair<int, int>> last_out;    // uid -> (seq, frag) at the previous block
+	void note_raw_login(const Dgram &d)
+	{
+		if (!w->S.faults.rawlate || d.data.size() < 4 || (d.data[3] >> 4) != 1) return;
+		int u = d.data[3] & 15; UserView v;
+		if (!peek_user(u, v) || !v.active || !v.q_id) return;
+		for (auto it = recent.rbegin(); it != recent.rend(); ++it) {
+			auto f = origs.find(*it);
+			if (f == origs.end() || !f->second.processed || f->second.answered || f->second.uid != u || f->second.id_as_received != (uint16_t)v.q_id) continue;
+			DnsMsg m; UpQuery q;
+			if (!dns_parse_strict(f->second.as_received.data, m).empty() || m.qd.empty() || !decode_upquery(m.qd[0].name.dotted(), w->domain, q)) break;
+			forgotten.push_back({*it, u, q.dn_seq, q.dn_frag, 0}); w->probes["c16.query_waiting_at_raw_login"]++;
+			break;
+		}
+	}
+	void forgotten_redelivery()
+	{
+		for (auto &f : forgotten) {
+			UserView v;
+			if (!peek_user(f.uid, v) || !v.active) continue;
+			std::pair<int, int> cur{v.out.seqno, v.out.fragment}; bool moved = last_out[f.uid] != cur; last_out[f.uid] = cur;
+			if (!f.big && f.fed < 14 && v.out.len == 0 && v.outq_filled == 0 && v.conn == 1 && w->S.now - f.t_last > 40000 && w->S.U("trig.forgot.feed", f.serial) < 0.8) {
+				f.t_last = w->S.now; f.fed++;
+				if (((v.out.seqno + 1) & 7) == f.dn_seq) { feed(std::max(200, v.fragsize) * (f.dn_frag + 3)); f.big = true; }
+				else feed(40 + (int)(w->S.D("trig.forgot.len", f.serial * 31 + f.fed) % 40));
+			}
+			if (!moved || f.shots >= 3 || v.out.len == 0 || v.out.sentlen == 0 || v.out.seqno != f.dn_seq || v.out.fragment != f.dn_frag) continue;
+			if (v.out.offset + v.out.sentlen >= v.out.len) continue;      // a last fragment: an early ack only ends the packet
+			auto o = origs.find(f.serial);
+			if (o == origs.end()) continue;
+			Dgram c = o->second.as_received; c.redelivery = true; f.shots++;
+			Sim *S = &w->S;
+			S->at(S->now + 1 + S->R("trig.forgot.dt", f.serial * 7 + f.shots, 0, 300), [S, c]() { if (S->redeliver_gate && !S->redeliver_gate(c)) return; S->deliver(c); });
+			w->S.count("fault.redeliver.forgotten_at_ack_match");
+		}
+	}
+
 	void on_recv(Task &t, const Dgram &d) override
 	{
 		if (&t != w->srv) return;
 		if (d.src.fam == AF_INET && d.src.a[0] == 127) return;
+		if (is_raw(d.data)) note_raw_login(d);
 		step_n++;
 		if (step_n > 1) return;
 		step_d = d; step_is_redeliv = d.redelivery; step_serial = d.serial; have_before = false; step_uid = -1;
@@ -189,6 +240,7 @@ struct C16Redeliver : Monitor {
 		for (int u = 0, n = peek_nusers(); u < n; u++) { UserView v; if (peek_user(u, v) && v.active && v.outfragresent >= 5) w->probes["c16.client_discarded_nonrecent"]++, w->probes["c16.server_resend_limit_reached"]++; }
 		finish_step();
 		triggered_redelivery();
+		forgotten_redelivery();
 		step_n = 0; step_tun = false; step_is_redeliv = false; have_before = false;
 	}
 
